@@ -118,6 +118,15 @@ def render(q, rng):
     return np.stack(frames)
 
 
+def frame_margin_keep(flat_idx, zero, a, b, r, shape):
+    """the margin rule of the statement; None when a position is within 1e-9 of a margin"""
+    pos = zero + flat_idx[:, :1] * a + flat_idx[:, 1:] * b
+    dist = np.min(np.abs(np.stack([pos[:, 0] - r, shape[0] - r - pos[:, 0], pos[:, 1] - r, shape[1] - r - pos[:, 1]])), axis=0)
+    if np.any(dist <= 1e-9):
+        return None
+    return (pos[:, 0] >= r) & (pos[:, 0] < shape[0] - r) & (pos[:, 1] >= r) & (pos[:, 1] < shape[1] - r)
+
+
 def run_case(kind, q):
     rng = np.random.default_rng(q["seed"])
     msgs = []
@@ -137,6 +146,14 @@ def run_case(kind, q):
                 indices = np.mgrid[-3:4, -3:4] if q["layout"] == "mgrid" else np.mgrid[-3:4, -3:4].reshape(2, -1).T.copy()
                 if q["layout"] == "pair2":        # a list of exactly two (i, j) pairs: shape (2, 2), still the list layout
                     indices = np.array(q["pairs"])
+                if q["layout"] == "satellites":
+                    # an index list with repeated entries and fractional (satellite) indices a fraction of a pixel away from a
+                    # main position: every listed position is correlated and returned, in the order given
+                    rs_ = np.random.default_rng(q["seed"] + 77)
+                    base_ = np.mgrid[-2:3, -2:3].reshape(2, -1).T.astype(np.float64)
+                    sat_ = base_[rs_.integers(0, len(base_), 6)] + rs_.choice([0.0, 0.02, -0.03, 0.04], (6, 2))
+                    indices = np.concatenate([base_, sat_, base_[rs_.integers(0, len(base_), 3)]])
+                    indices = indices[rs_.permutation(len(indices))]
                 zs = q["zero_shift"]
                 corr_name = q["correlation"]
                 if corr_name == "sparse":
@@ -179,6 +196,12 @@ def run_case(kind, q):
                     msgs.append("returned indices are not the lattice positions with margin pattern.search")
                 # independent of frame_peaks: the half-open margin rule of the statement, r = pattern.search
                 flat_idx = indices.reshape(2, -1).T if q["layout"] == "mgrid" else indices
+                if q["layout"] == "satellites":
+                    keep_ = frame_margin_keep(flat_idx, zero0, a0, b0, float(pat.search), q["shape"])
+                    if keep_ is not None and not np.array_equal(np.asarray(used, dtype=np.float64), flat_idx[keep_]):
+                        msgs.append(f"run_refine returned {len(used)} indices for an index list with repeated / fractional entries, "
+                                    f"{int(keep_.sum())} listed positions keep the margin (returned: not the listed ones in order)")
+                    flat_idx = np.zeros((0, 2))
                 pos = zero0 + flat_idx[:, :1] * a0 + flat_idx[:, 1:] * b0
                 r_ = float(pat.search)
                 keep = (pos[:, 0] >= r_) & (pos[:, 0] < q["shape"][0] - r_) & (pos[:, 1] >= r_) & (pos[:, 1] < q["shape"][1] - r_)
@@ -263,6 +286,14 @@ def search(ctx, boost=1, focus=()):
         q = gen(rng, k)
         ctx.oracle_case("refine", q, run_case("refine", q), nontrivial=q["nframes"] > 1 and q["zero_shift"] is not None)
         ctx.count(f"refine_{q['correlation']}_{q['match']}")
+    for k in range((12 if ctx.tier == "thorough" else 4) * boost):
+        q = gen(rng, 6 * k)
+        q["layout"] = "satellites"
+        q["exact_min_match"] = False
+        q["correlation"] = ("fast", "fullframe", "sparse")[k % 3]
+        q["match"] = ("fast", "affine")[(k // 3) % 2]
+        ctx.oracle_case("refine", q, run_case("refine", q), nontrivial=True)
+        ctx.count(f"refine_satellites_{q['correlation']}_{q['match']}")
     for k in range(max(6, n // 2)):
         pat = impl.pattern_params(rng, kinds=("circular", "background_subtraction", "radial_gradient"), rmin=2, rmax=4)
         c = int(np.ceil(pat["search"]))
